@@ -1,0 +1,143 @@
+//! Verification hooks.
+//!
+//! This module is compiled only when the crate is built with
+//! `--cfg cactusref_verif`. It is read-only instrumentation for an external
+//! simulation harness: counters for the reachability trace and the teardown
+//! paths, a snapshot of an `Rc`'s adoption bookkeeping, and a poison pattern
+//! for fields whose contents have been moved out. Nothing here changes the
+//! behaviour of the crate when the cfg is off.
+
+#![allow(missing_docs)]
+#![allow(clippy::all)]
+#![allow(clippy::pedantic)]
+
+use alloc::vec::Vec;
+use core::mem;
+use core::sync::atomic::{AtomicUsize, Ordering::Relaxed};
+
+use crate::link::Kind;
+use crate::Rc;
+
+/// Number of reachability traces started.
+pub static TRACE_CALLS: AtomicUsize = AtomicUsize::new(0);
+/// Number of worklist pops over all traces.
+pub static TRACE_POPS: AtomicUsize = AtomicUsize::new(0);
+/// Number of distinct (first time) node visits over all traces.
+pub static TRACE_VISITS: AtomicUsize = AtomicUsize::new(0);
+/// Number of link table entries scanned over all traces.
+pub static TRACE_SCANNED: AtomicUsize = AtomicUsize::new(0);
+/// `drop_unreachable` taken.
+pub static PATH_PLAIN: AtomicUsize = AtomicUsize::new(0);
+/// `drop_unreachable_with_adoptions` taken.
+pub static PATH_ZERO_WITH_LINKS: AtomicUsize = AtomicUsize::new(0);
+/// `drop_cycle` taken.
+pub static PATH_CYCLE: AtomicUsize = AtomicUsize::new(0);
+/// Sum of the sizes of all groups handed to `drop_cycle`.
+pub static CYCLE_MEMBERS: AtomicUsize = AtomicUsize::new(0);
+/// Members of a group that were skipped because they were still alive.
+pub static CYCLE_SURVIVORS: AtomicUsize = AtomicUsize::new(0);
+/// `RcBox::links` called on an allocation whose contents were moved out.
+pub static STALE_ACCESS: AtomicUsize = AtomicUsize::new(0);
+
+static STALE_HOOK: AtomicUsize = AtomicUsize::new(0);
+
+pub const N_COUNTERS: usize = 10;
+
+/// All counters, in declaration order.
+pub fn counters() -> [usize; N_COUNTERS] {
+    [
+        TRACE_CALLS.load(Relaxed),
+        TRACE_POPS.load(Relaxed),
+        TRACE_VISITS.load(Relaxed),
+        TRACE_SCANNED.load(Relaxed),
+        PATH_PLAIN.load(Relaxed),
+        PATH_ZERO_WITH_LINKS.load(Relaxed),
+        PATH_CYCLE.load(Relaxed),
+        CYCLE_MEMBERS.load(Relaxed),
+        CYCLE_SURVIVORS.load(Relaxed),
+        STALE_ACCESS.load(Relaxed),
+    ]
+}
+
+/// Reset all counters to zero.
+pub fn reset() {
+    for c in [
+        &TRACE_CALLS,
+        &TRACE_POPS,
+        &TRACE_VISITS,
+        &TRACE_SCANNED,
+        &PATH_PLAIN,
+        &PATH_ZERO_WITH_LINKS,
+        &PATH_CYCLE,
+        &CYCLE_MEMBERS,
+        &CYCLE_SURVIVORS,
+        &STALE_ACCESS,
+    ] {
+        c.store(0, Relaxed);
+    }
+}
+
+#[inline]
+pub(crate) fn bump(counter: &AtomicUsize, by: usize) {
+    counter.store(counter.load(Relaxed).wrapping_add(by), Relaxed);
+}
+
+/// Register a function that is called whenever the link table accessor is used
+/// on an allocation whose contents have already been moved out.
+pub fn set_stale_access_hook(hook: Option<fn()>) {
+    STALE_HOOK.store(hook.map_or(0, |f| f as usize), Relaxed);
+}
+
+#[inline]
+pub(crate) fn on_links_access(strong: usize) {
+    if strong == usize::MAX {
+        bump(&STALE_ACCESS, 1);
+        let hook = STALE_HOOK.load(Relaxed);
+        if hook != 0 {
+            // SAFETY: only `set_stale_access_hook` stores here, and only `fn()`.
+            let hook: fn() = unsafe { mem::transmute(hook) };
+            hook();
+        }
+    }
+}
+
+/// Overwrite a field whose contents were moved out with a recognisable
+/// pattern, so that a later stale read fails deterministically.
+#[inline]
+pub(crate) unsafe fn poison<X>(field: *mut X) {
+    core::ptr::write_bytes(field.cast::<u8>(), 0xA5, mem::size_of::<X>());
+}
+
+/// Address of the heap allocation behind `rc`.
+pub fn rcbox_addr<T>(rc: &Rc<T>) -> usize {
+    rc.ptr.as_ptr() as usize
+}
+
+/// Offset of the value inside the allocation behind an `Rc<T>`.
+pub fn value_offset<T>(rc: &Rc<T>) -> usize {
+    Rc::as_ptr(rc) as usize - rcbox_addr(rc)
+}
+
+/// Link kinds as reported by [`links_snapshot`].
+pub const KIND_FORWARD: u8 = 0;
+pub const KIND_BACKWARD: u8 = 1;
+pub const KIND_LOOPBACK: u8 = 2;
+
+/// A read-only snapshot of the adoption bookkeeping stored in `rc`:
+/// `(address of the peer allocation, kind, count)` for every entry.
+///
+/// The caller must pass a live `Rc`.
+pub fn links_snapshot<T>(rc: &Rc<T>) -> Vec<(usize, u8, usize)> {
+    let links = unsafe { rc.inner().links().borrow() };
+    links
+        .iter()
+        .map(|(link, &count)| {
+            let kind = match link.kind() {
+                Kind::Forward => KIND_FORWARD,
+                Kind::Backward => KIND_BACKWARD,
+                Kind::Loopback => KIND_LOOPBACK,
+            };
+            (link.as_ptr() as usize, kind, count)
+        })
+        .collect()
+}
